@@ -626,7 +626,10 @@ inline void ThreadPool::forceEnqueue(F&& f, moodycamel::ProducerToken* token) {
 template <typename F>
 DISPENSO_REQUIRES(OnceCallableFunc<F>)
 inline void ThreadPool::schedule(F&& f) {
-  if (shouldRunInline()) {
+  if (shouldRunInline() && detail::PerPoolPerThreadInfo::canInlineSchedule()) {
+    // Bound the nesting of inline runs: a task that schedules the next one under overload
+    // would otherwise recurse once per task.
+    detail::InlineDepthGuard depthGuard;
     f();
   } else {
     schedule(std::forward<F>(f), ForceQueuingTag());
@@ -643,7 +646,10 @@ inline void ThreadPool::schedule(F&& f, ForceQueuingTag) {
 
 template <typename F>
 inline void ThreadPool::schedule(moodycamel::ProducerToken& token, F&& f) {
-  if (shouldRunInline()) {
+  if (shouldRunInline() && detail::PerPoolPerThreadInfo::canInlineSchedule()) {
+    // Bound the nesting of inline runs: a task that schedules the next one under overload
+    // would otherwise recurse once per task.
+    detail::InlineDepthGuard depthGuard;
     f();
   } else {
     schedule(token, std::forward<F>(f), ForceQueuingTag());
@@ -658,7 +664,10 @@ inline void ThreadPool::schedule(moodycamel::ProducerToken& token, F&& f, ForceQ
 template <typename F>
 DISPENSO_REQUIRES(OnceCallableFunc<F>)
 inline void ThreadPool::schedulePlaced(F&& f) {
-  if (shouldRunInline()) {
+  if (shouldRunInline() && detail::PerPoolPerThreadInfo::canInlineSchedule()) {
+    // Bound the nesting of inline runs: a task that schedules the next one under overload
+    // would otherwise recurse once per task.
+    detail::InlineDepthGuard depthGuard;
     f();
   } else {
     schedulePlaced(std::forward<F>(f), ForceQueuingTag());
@@ -675,7 +684,10 @@ inline void ThreadPool::schedulePlaced(F&& f, ForceQueuingTag) {
 
 template <typename F>
 inline void ThreadPool::schedulePlaced(moodycamel::ProducerToken& token, F&& f) {
-  if (shouldRunInline()) {
+  if (shouldRunInline() && detail::PerPoolPerThreadInfo::canInlineSchedule()) {
+    // Bound the nesting of inline runs: a task that schedules the next one under overload
+    // would otherwise recurse once per task.
+    detail::InlineDepthGuard depthGuard;
     f();
   } else {
     schedulePlaced(token, std::forward<F>(f), ForceQueuingTag());
